@@ -209,6 +209,20 @@ def check_case(ctx, case):
         sc = (math.fsum(abs(v) for v in da) + abs(na) + abs(nb)) / Na
         if abs(got - want) > 1e-9 * sc + 1e-12:
             ctx.violation("binaryT:information_gain_wrong", {"got": got, "want": want, "n_active": Na})
+        # variance, t statistic, critical value and interval: the same equations with N = number of active bins
+        # (matrix_binary_t_test docstring: Rhoades et al. 2011 / Bayona et al. 2022, information gain per active bin)
+        if Na >= 2:
+            ig, var, t, tc, lo, hi = t_oracle(da, na, nb, alpha)
+            gt, gtc = (float(v) for v in o.value.quantile)
+            glo, ghi = (float(v) for v in o.value.test_distribution)
+            if not rel(gtc, tc):
+                ctx.violation("binaryT:critical_value_wrong", {"got": gtc, "want": tc, "n_active": Na})
+            if var > 1e-6 * (1e-300 + math.fsum(v * v for v in da) / max(Na - 1, 1)):
+                ctx.count("binaryT_statistic_and_interval_compared")
+                if not rel(gt, t, 1e-6):
+                    ctx.violation("binaryT:t_statistic_wrong", {"got": gt, "want": t, "n_active": Na})
+                if not (rel(glo, lo, 1e-6, 1e-9 * sc) and rel(ghi, hi, 1e-6, 1e-9 * sc)):
+                    ctx.violation("binaryT:interval_wrong", {"got": [glo, ghi], "want": [lo, hi]})
         o2 = call(Bn.binary_paired_t_test, fb, fa, cat(), alpha=alpha, scale=scale)
         if o2.ok and abs(float(o2.value.observed_statistic) + got) > 1e-9 * sc + 1e-12:
             ctx.violation("binaryT:swap_does_not_negate_gain", {"ab": got, "ba": float(o2.value.observed_statistic)})
